@@ -953,6 +953,31 @@ pub fn exec_user_history(r: &mut Report, d: &mut Driver, rng: &mut Rng, idx: u64
                 }
             }
             "C04" => {
+                // "own or imported": what a peer serves about a crate reaches the store an unlocked
+                // run resolves on, unless *that* import excludes the crate
+                if let Some(live) = &live_after {
+                    if let Some(li) = &live.live_imports {
+                        for (iname, imp) in &live.config.imports {
+                            let builtin_remapped = imp.criteria_map.keys().any(|k| **k == SAFE_TO_RUN || **k == SAFE_TO_DEPLOY);
+                            let Some(served) = imp.url.first().and_then(|u| w.remote.peers.get(u)) else { continue };
+                            if builtin_remapped || imp.url.len() != 1 {
+                                continue;
+                            }
+                            r.oracle_checked += 1;
+                            for (crate_name, l) in &served.audits {
+                                if imp.exclude.contains(crate_name) {
+                                    continue;
+                                }
+                                for e in l.iter().filter(|e| e.importable && e.criteria.iter().any(|c| **c == SAFE_TO_RUN || **c == SAFE_TO_DEPLOY)) {
+                                    let got = li.audits.get(iname).and_then(|f| f.audits.get(crate_name)).map(|l2| l2.iter().any(|x| x.kind == e.kind)).unwrap_or(false);
+                                    if !got {
+                                        r.fail("oracle", "C04/ucmd/peer-record-not-imported", format!("after `{lab}`: {iname} serves {crate_name} {:?} {:?} and does not exclude {crate_name} (its exclude list: {:?}), yet an unlocked run does not see the entry", e.kind, e.criteria.iter().map(|c| c.to_string()).collect::<Vec<_>>(), imp.exclude), &case);
+                                    }
+                                }
+                            }
+                        }
+                    }
+                }
                 if let UCmd::RecordViolation { pkg, req, .. } = &uc {
                     c04_violation_exported(r, &p, &w, pkg, req, &after, &case);
                 }
